@@ -39,11 +39,11 @@ M == Traces[tid].cfg
 Ev == T[li + 1]
 SetOf(s) == { s[i] : i \in DOMAIN s }
 
-TInit == /\ Init
-         /\ tid \in 1..Len(Traces) /\ li = 0
+TInit == /\ tid \in 1..Len(Traces) /\ li = 0
          /\ cfg = [L |-> M.L, CS |-> M.CS, W |-> M.W, Pre |-> M.Pre, Ow |-> M.Ow,
                    FaultChunk |-> M.FaultChunk, EmptyCentre |-> M.EmptyCentre, Where |-> M.Where,
                    Kill |-> M.Kill, Buf |-> M.Buf]
+         /\ CfgOK(cfg) /\ InitRest
          /\ TLCSet(tid, 0) /\ TLCSet(1000000 + tid, FALSE)
 
 More == li < Len(T)
